@@ -20,6 +20,7 @@ fn usage() -> ! {
     keys                                  all key codes the tool knows: ndjson {{name, code}}\n\
     builtins                              the built-in layouts: ndjson {{name, json}}\n\
     tabulate <jobs.json> <outdir> <shards>  tabulate Mapper::step/release_all per layout\n\
+    walk <jobs.json>                      long random histories of the real mapper, recorded step by step\n\
     load <cases.ndjson>                   run the real loader on JSON values\n\
     loadtext <cases.ndjson>               run the real loader on raw texts (outcome only)\n\
     roundtrip <cases.ndjson>              save as /etc/totalmapper.json would, reload\n\
@@ -41,6 +42,7 @@ fn main() {
     "keys" => cases::cmd_keys(),
     "builtins" => cases::cmd_builtins(),
     "tabulate" => { if rest.len() != 3 { usage(); } tabulate::cmd_tabulate(&rest[0], &rest[1], rest[2].parse().unwrap()) },
+    "walk" => { if rest.len() != 1 { usage(); } tabulate::cmd_walk(&rest[0]) },
     "load" => { if rest.len() != 1 { usage(); } cases::cmd_load(&rest[0]) },
     "loadtext" => { if rest.len() != 1 { usage(); } cases::cmd_loadtext(&rest[0]) },
     "roundtrip" => { if rest.len() != 1 { usage(); } cases::cmd_roundtrip(&rest[0]) },
